@@ -200,8 +200,15 @@ func buildTxs(desc []interface{}, salt int) []*wire.MsgTx {
 			if k := gInt(im, "sig"); k >= 0 {
 				sig = append(pushOp(poolItem(k)[:8]), pushOp(poolItem(k))...)
 			}
-			if gInt(im, "sig") == -2 {
+			switch gInt(im, "sig") { // unparsable signature scripts of several kinds
+			case -2:
 				sig = []byte{0x05, 0x01}
+			case -3:
+				sig = []byte{0x4c}
+			case -4:
+				sig = []byte{0x01, 0x07, 0x4d, 0xff}
+			case -5:
+				sig = append(pushOp(poolItem(1)), 0x4e, 0x01, 0x00)
 			}
 			tx.AddTxIn(wire.NewTxIn(wire.NewOutPoint(&prev, uint32(gInt(im, "out"))), sig))
 		}
@@ -494,6 +501,75 @@ func runC10(c *Ctx) {
 		// and once more: the filter may now contain outpoints added by the first pass
 		calls = append(calls, Event{"op": "MatchTx", "desc": desc[:n], "salt": salt})
 		c.Run(calls)
+	}
+	// several inputs, the first ones with unparsable / irrelevant scripts, the reason for relevance in a LATER input (its
+	// outpoint or a push of its script): every input is looked at
+	for k := 0; k < c.Pick(40, 400); k++ {
+		bad := []int{-2, -3, -4, -5}[k%4]
+		var ins []interface{}
+		switch (k / 4) % 3 {
+		case 0:
+			ins = []interface{}{map[string]interface{}{"parent": -1, "out": 1, "sig": bad, "ext": 11}, map[string]interface{}{"parent": -1, "out": 2, "sig": 0, "ext": 12}}
+		case 1:
+			ins = []interface{}{map[string]interface{}{"parent": -1, "out": 1, "sig": -1, "ext": 11}, map[string]interface{}{"parent": -1, "out": 2, "sig": bad, "ext": 12},
+				map[string]interface{}{"parent": -1, "out": 3, "sig": 0, "ext": 13}}
+		case 2:
+			ins = []interface{}{map[string]interface{}{"parent": -1, "out": 1, "sig": bad, "ext": 11}, map[string]interface{}{"parent": -1, "out": 2, "sig": bad, "ext": 12},
+				map[string]interface{}{"parent": -1, "out": 7, "sig": -1, "ext": 13}}
+		}
+		desc := []interface{}{map[string]interface{}{"outs": []interface{}{map[string]interface{}{"kind": "push", "item": 2, "item2": 2}}, "ins": ins}}
+		salt := int(r.Int31n(60000))
+		txs := buildTxs(desc, salt)
+		var fit []interface{}
+		if (k/4)%3 == 2 { // the outpoint the LAST input spends
+			fit = []interface{}{map[string]interface{}{"t": "extout", "i": 0, "ext": 13, "o": int64(7)}}
+		} else { // a push of the last input's script
+			fit = []interface{}{map[string]interface{}{"t": "sig", "k": 0}}
+		}
+		calls := []Event{loadCall(c, "LoadFilter", []int{64, 512}[k%2], 1+k%3, randTweak(c, k), k%3, true)}
+		for _, it := range filterItems(Event{"fitems": fit}, txs) {
+			calls = append(calls, Event{"op": "Add", "item": ints(it)})
+		}
+		calls = append(calls, Event{"op": "MatchTx", "desc": desc, "salt": salt})
+		c.Run(calls)
+		c.Call(Event{"op": "ScanBlock", "desc": desc, "order": []int{0}, "fitems": fit, "salt": salt, "flags": k % 3, "nbytes": 512, "nhash": 3, "tweak": w32(uint32(k))})
+	}
+	// saturated tiny filters (8 or 16 bits): an insertion often flips no bit at all -- "the filter did not change" says
+	// nothing about what a spender seen earlier would match now.  Parent, a second matching transaction, the parent's
+	// spender, in every block order.
+	for k := 0; k < c.Pick(12, 100); k++ {
+		pkOut := map[string]interface{}{"kind": "pk", "item": 0, "item2": 0}
+		other := map[string]interface{}{"kind": "push", "item": 2, "item2": 2}
+		desc := []interface{}{
+			map[string]interface{}{"outs": []interface{}{pkOut}, "ins": []interface{}{map[string]interface{}{"parent": -1, "out": 0, "sig": -1, "ext": k % 200}}},
+			map[string]interface{}{"outs": []interface{}{pkOut, pkOut}, "ins": []interface{}{map[string]interface{}{"parent": -1, "out": 1, "sig": -1, "ext": (k + 50) % 200}}},
+			map[string]interface{}{"outs": []interface{}{other}, "ins": []interface{}{map[string]interface{}{"parent": 0, "out": 0, "sig": -1, "ext": 0}}},
+			map[string]interface{}{"outs": []interface{}{other}, "ins": []interface{}{map[string]interface{}{"parent": 1, "out": 1, "sig": -1, "ext": 0}}},
+		}
+		n := 3 + k%2
+		var perms [][]int
+		var rec func(p []int)
+		rec = func(p []int) {
+			if len(p) == n {
+				perms = append(perms, append([]int{}, p...))
+				return
+			}
+			for i := 0; i < n; i++ {
+				used := false
+				for _, x := range p {
+					used = used || x == i
+				}
+				if !used {
+					rec(append(p, i))
+				}
+			}
+		}
+		rec(nil)
+		salt := int(r.Int31n(60000))
+		for _, ord := range perms {
+			c.Call(Event{"op": "ScanBlock", "desc": desc[:n], "order": ord, "fitems": []interface{}{map[string]interface{}{"t": "item", "k": 0, "kind": "pk"}},
+				"salt": salt, "flags": 1 + k%2, "nbytes": 1 + k%2, "nhash": 1, "tweak": w32(uint32(k))})
+		}
 	}
 	// output match -> outpoint update -> the spender matches only through that outpoint
 	for k := 0; k < c.Pick(150, 1500); k++ {
